@@ -27,6 +27,24 @@ fn alg_name(a: &Alg) -> String {
     }
 }
 
+/// long_route family: the route is judged through summary facts against the closed form SR.line_S_long prints
+fn add_long_case(cx: &mut Ctx, n: usize, shape: LongShape, dir: Dir, orient: Orient, astar: bool, fam: &str) {
+    let id = cx.st.next_id();
+    let (w, q) = long_case(n, shape, dir, orient, astar);
+    let o = run_query_watchdog(&w, &q, 60_000);
+    let line = show_long_summary(&w, &q, &o);
+    let st = &mut cx.st;
+    st.count(&format!("family:{}", fam));
+    st.count(&format!("long_n:{}", n));
+    st.count(&format!("long:{}/{:?}/{:?}/{}", shape.name(), dir, orient, if astar { "astar" } else { "dijkstra" }));
+    if n >= 1000 {
+        st.mark_nontrivial(&format!("long|{}|{}|{:?}|{:?}|{}", n, shape.name(), dir, orient, astar));
+    }
+    let desc = json!({"id": id, "family": fam, "long": {"n": n, "shape": shape.name(), "astar": astar}, "query": query_to_json(&q),
+                      "impl_short": line.chars().take(200).collect::<String>()});
+    st.case(vec![term_const("M", id, "NOMODEL"), term_s_long(id, n, shape, dir)], vec![format!("I {} {}", id, line)], desc);
+}
+
 /// Yen's k-shortest paths over `under`: no model line (NOMODEL), judged by S only -- chain clause for EVERY returned
 /// route, tree clause for the returned tree; a panic / timeout is "no result" (counted, not judged)
 fn add_ksp_case(cx: &mut Ctx, family: &str, w: &World, k: usize, under: &Alg, s: usize, t: usize) {
@@ -149,10 +167,16 @@ fn main() {
             Some(cs) => cs.as_array().unwrap().clone(),
             None => vec![v["case"].clone()],
         };
+        let fam_of = |case: &serde_json::Value| case.get("corpus").and_then(|x| x.as_str()).map(|x| format!("corpus:{}", x)).unwrap_or("replay".to_string());
         for case in &cases {
+            let fam = fam_of(case);
+            if let Some(l) = case.get("long") {
+                let q = query_from_json(&case["query"]);
+                add_long_case(&mut cx, l["n"].as_u64().unwrap() as usize, LongShape::from_name(l["shape"].as_str().unwrap_or("plain")), q.dir, q.orient, l["astar"].as_bool().unwrap_or(false), &fam);
+                continue;
+            }
             let w = world_from_json(&case["world"]);
             let q = query_from_json(&case["query"]);
-            let fam = case.get("corpus").and_then(|x| x.as_str()).map(|x| format!("corpus:{}", x)).unwrap_or("replay".to_string());
             if let Some(k) = case.get("ksp").and_then(|x| x.get("k")).and_then(|x| x.as_u64()) {
                 add_ksp_case(&mut cx, &fam, &w, k as usize, &q.alg, q.source, q.target.unwrap());
             } else {
@@ -171,6 +195,42 @@ fn main() {
     }
     for (name, w, q) in reopen_cases() {
         add_case(&mut cx, &name, &w, &q, json!({}));
+    }
+    // long routes: every shape / direction / orientation on a 50-edge chain, then 65k+ edge chains (the route buffer
+    // of the backtrack is where a 16-bit bound would bite); `long=all` (thorough tier) runs the full grid
+    let dirs = [Dir::Forward, Dir::Reverse];
+    let orients = [Orient::Vertex, Orient::Edge];
+    let shapes = [LongShape::Plain, LongShape::RevIds, LongShape::Branch];
+    for sh in shapes {
+        for d in dirs {
+            for or in orients {
+                add_long_case(&mut cx, 50, sh, d, or, sh == LongShape::RevIds, "long_route_small");
+            }
+        }
+    }
+    if a.extra.iter().any(|x| x == "long=all") {
+        for sh in shapes {
+            for d in dirs {
+                for or in orients {
+                    for astar in [false, true] {
+                        add_long_case(&mut cx, 70_000, sh, d, or, astar, "long_route");
+                    }
+                }
+            }
+        }
+        for n in [65_534usize, 65_535, 65_536, 65_537, 200_000] {
+            for d in dirs {
+                for or in orients {
+                    for astar in [false, true] {
+                        add_long_case(&mut cx, n, LongShape::Plain, d, or, astar, "long_route");
+                    }
+                }
+            }
+        }
+    } else {
+        add_long_case(&mut cx, 65_536, LongShape::Plain, Dir::Forward, Orient::Vertex, false, "long_route");
+        add_long_case(&mut cx, 70_000, LongShape::Branch, Dir::Reverse, Orient::Vertex, true, "long_route");
+        add_long_case(&mut cx, 70_000, LongShape::RevIds, Dir::Forward, Orient::Edge, false, "long_route");
     }
     for (name, w, k, under, s, t) in ksp_cases() {
         add_ksp_case(&mut cx, &name, &w, k, &under, s, t);
